@@ -34,6 +34,12 @@ type vfC45G struct {
 	rt      *rapid.T
 	budget  int
 	addrSeq int
+	kind    int // root resource kind (vfC45LDS ...)
+	// wild is the per-resource chaos level: 0 = fields the parsers require are
+	// (almost) always set and get values from the "good" pools, forbidden
+	// fields stay unset; 1 = the hint probabilities as written; 2 = additionally
+	// foreign/garbage Any payloads and bad pool values are frequent.
+	wild int
 }
 
 type vfC45Hint struct {
@@ -46,25 +52,26 @@ type vfC45Hint struct {
 // oneof weights: percent chance for each member (rest = none set)
 type vfC45Oneof map[string]int
 
-var vfC45Pools = map[string][]string{
-	"name":      {"a", "b", "c", "cluster-1", "cluster-2", "route-1", "lis-1", "xdstp://auth/envoy.config.cluster.v3.Cluster/c1", "", "router", "f1", "f2"},
-	"regex":     {"a.*", ".*", "/svc/[^/]+", "", "(", "a)|(b", "[", "(?i)x", "a{1,2}", "\\"},
-	"ip":        {"10.0.0.1", "10.0.0.2", "10.1.2.3", "::1", "2001:db8::1", "0.0.0.0", "::", "127.0.0.1", "not-an-ip", "", "256.1.1.1", "::ffff:10.0.0.1", "dns.example.com"},
-	"domain":    {"*", "a.b", "*.b", "a.*", "", "a*b", "svc:80"},
-	"path":      {"/", "/svc/", "/svc/M", "", "svc"},
-	"header":    {"x-a", "x-b", "content-type", ":path", "x-c-bin", ""},
-	"retry_on":  {"cancelled", "unavailable,internal", "5xx", "", "deadline-exceeded, resource-exhausted", "CANCELLED"},
-	"tsname":    {"envoy.transport_sockets.tls", "envoy.transport_sockets.tls", "envoy.transport_sockets.tls", "tls", ""},
-	"instance":  {"default", "rootca", "", "identity"},
-	"tproto":    {"raw_buffer", "raw_buffer", "", "tls"},
-	"fskey":     {"io.grpc.channel_id", "io.grpc.channel_id", "other", ""},
-	"ctype":     {"envoy.clusters.aggregate", "envoy.clusters.aggregate", "other", ""},
-	"metric":    {"cpu_utilization", "mem_utilization", "application_utilization", "named_metrics.*", "named_metrics.foo", "named_metrics.", "x"},
-	"category":  {"lb", "throttle", ""},
-	"region":    {"r1", "r2", ""},
-	"generic":   {"", "a", "b", "x-y", "0", "*", "K", "\xff"},
-	"mdkey":     {"envoy.lb", "com.google.csm.telemetry_labels", "envoy.http11_proxy_transport_socket.proxy_address", "k"},
-	"structkey": {"hash_key", "service_name", "service_namespace", "k"},
+// string pools: [0] values the parsers accept, [1] values they (may) reject
+var vfC45Pools = map[string][2][]string{
+	"name":      {{"a", "b", "c", "cluster-1", "cluster-2", "route-1", "lis-1", "router", "f1", "f2"}, {"", "xdstp://auth/envoy.config.cluster.v3.Cluster/c1", "xdstp:"}},
+	"regex":     {{"a.*", ".*", "/svc/[^/]+", "", "(?i)x", "a{1,2}"}, {"(", "a)|(b", "[", "\\"}},
+	"ip":        {{"10.0.0.1", "10.0.0.2", "10.1.2.3", "::1", "2001:db8::1", "0.0.0.0", "::", "127.0.0.1", "192.168.0.0"}, {"not-an-ip", "", "256.1.1.1", "::ffff:10.0.0.1", "dns.example.com"}},
+	"domain":    {{"*", "a.b", "*.b", "a.*", "svc:80"}, {"", "a*b"}},
+	"path":      {{"/", "/svc/", "/svc/M", "", "svc"}, {"/\u212a"}},
+	"header":    {{"x-a", "x-b", "content-type", ":path"}, {"x-c-bin", ""}},
+	"retry_on":  {{"cancelled", "unavailable,internal", "deadline-exceeded, resource-exhausted", "CANCELLED"}, {"5xx", ""}},
+	"tsname":    {{"envoy.transport_sockets.tls"}, {"tls", ""}},
+	"instance":  {{"default", "rootca", "identity"}, {""}},
+	"tproto":    {{"raw_buffer", ""}, {"tls"}},
+	"fskey":     {{"io.grpc.channel_id"}, {"other", ""}},
+	"ctype":     {{"envoy.clusters.aggregate"}, {"other", ""}},
+	"metric":    {{"cpu_utilization", "mem_utilization", "application_utilization", "named_metrics.*", "named_metrics.foo"}, {"named_metrics.", "x"}},
+	"category":  {{"lb", "throttle"}, {""}},
+	"region":    {{"r1", "r2", ""}, {"r3"}},
+	"generic":   {{"a", "b", "x-y", "0", "K"}, {"", "*"}},
+	"mdkey":     {{"envoy.lb", "com.google.csm.telemetry_labels", "k"}, {"envoy.http11_proxy_transport_socket.proxy_address"}},
+	"structkey": {{"hash_key", "service_name", "service_namespace", "k"}, {""}},
 }
 
 // Any contexts: parent message + field -> candidate message types.
@@ -310,6 +317,14 @@ var vfC45Oneofs = map[string]vfC45Oneof{
 }
 
 func (g *vfC45G) pct(p int, label string) bool {
+	if g.wild == 0 {
+		switch {
+		case p >= 85:
+			p = 99
+		case p <= 5:
+			p = 0
+		}
+	}
 	if p <= 0 {
 		return false
 	}
@@ -324,7 +339,17 @@ func (g *vfC45G) str(pool string, label string) string {
 	if !ok {
 		ps = vfC45Pools["generic"]
 	}
-	return rapid.SampledFrom(ps).Draw(g.rt, label)
+	bad := 0
+	switch g.wild {
+	case 1:
+		bad = 8
+	case 2:
+		bad = 30
+	}
+	if bad > 0 && rapid.IntRange(0, 99).Draw(g.rt, label+"_bad") < bad {
+		return rapid.SampledFrom(ps[1]).Draw(g.rt, label)
+	}
+	return rapid.SampledFrom(ps[0]).Draw(g.rt, label)
 }
 
 func vfC45GenUniqueName(g *vfC45G, m protoreflect.Message, fd protoreflect.FieldDescriptor, _ int) bool {
@@ -362,6 +387,15 @@ func vfC45SetU32Wrapper(m protoreflect.Message, fd protoreflect.FieldDescriptor,
 
 func vfC45GenPrefixLen(g *vfC45G, m protoreflect.Message, fd protoreflect.FieldDescriptor, _ int) bool {
 	v := uint32(rapid.SampledFrom([]int{0, 8, 16, 24, 32, 33, 64, 128, 129}).Draw(g.rt, "prefix_len"))
+	if g.wild == 0 {
+		addr := m.Get(m.Descriptor().Fields().ByName("address_prefix")).String()
+		if !strings.Contains(addr, ":") && v > 32 {
+			v = 32
+		}
+		if v > 128 {
+			v = 128
+		}
+	}
 	vfC45SetU32Wrapper(m, fd, v)
 	return true
 }
@@ -369,7 +403,11 @@ func vfC45GenPrefixLen(g *vfC45G, m protoreflect.Message, fd protoreflect.FieldD
 // weights: UInt32Value, 0 rarely, small mostly, near 2^32 sometimes.
 func vfC45GenWeight(g *vfC45G, m protoreflect.Message, fd protoreflect.FieldDescriptor, _ int) bool {
 	var v uint32
-	switch k := rapid.IntRange(0, 19).Draw(g.rt, "weight_kind"); {
+	k := rapid.IntRange(0, 19).Draw(g.rt, "weight_kind")
+	if g.wild == 0 && k <= 2 && rapid.IntRange(0, 3).Draw(g.rt, "weight_tame") > 0 {
+		k = 10
+	}
+	switch {
 	case k == 0:
 		v = 0
 	case k <= 2:
@@ -390,7 +428,51 @@ func vfC45GenPriority(g *vfC45G, m protoreflect.Message, fd protoreflect.FieldDe
 func vfC45GenLBPolicy(g *vfC45G, m protoreflect.Message, fd protoreflect.FieldDescriptor, _ int) bool {
 	// ROUND_ROBIN 0, LEAST_REQUEST 1, RING_HASH 2, RANDOM 3, MAGLEV 5, CLUSTER_PROVIDED 6, LOAD_BALANCING_POLICY_CONFIG 7
 	v := rapid.SampledFrom([]int32{0, 1, 1, 2, 2, 2, 3, 5, 6, 7, 99}).Draw(g.rt, "lb_policy")
+	if g.wild == 0 && v > 2 {
+		v = 0
+	}
 	m.Set(fd, protoreflect.ValueOfEnum(protoreflect.EnumNumber(v)))
+	return true
+}
+
+// Cluster.type: EDS 60 %, LOGICAL_DNS 25 %, anything 15 %.
+func vfC45GenClusterType(g *vfC45G, m protoreflect.Message, fd protoreflect.FieldDescriptor, _ int) bool {
+	v := rapid.SampledFrom([]int32{3, 3, 3, 3, 3, 3, 2, 2, 2, 0, 1, 4}).Draw(g.rt, "cluster_type") // EDS=3 LOGICAL_DNS=2
+	m.Set(fd, protoreflect.ValueOfEnum(protoreflect.EnumNumber(v)))
+	return true
+}
+
+// Cluster.lrs_server: ConfigSource{self} mostly (anything else is rejected).
+func vfC45GenLRSServer(g *vfC45G, m protoreflect.Message, fd protoreflect.FieldDescriptor, depth int) bool {
+	cs := m.Mutable(fd).Message()
+	if g.pct(85, "lrs_self") {
+		cs.Mutable(cs.Descriptor().Fields().ByName("self"))
+		return true
+	}
+	g.fill(cs, depth+1)
+	return true
+}
+
+// Cluster.load_assignment: for LOGICAL_DNS clusters mostly the required shape
+// (one locality, one endpoint with host and port), otherwise generic.
+func vfC45GenLoadAssignment(g *vfC45G, m protoreflect.Message, fd protoreflect.FieldDescriptor, depth int) bool {
+	la := m.Mutable(fd).Message()
+	isDNS := m.Get(m.Descriptor().Fields().ByName("type")).Enum() == 2 && m.Has(m.Descriptor().Fields().ByName("type"))
+	if !isDNS || !g.pct(80, "dns_shape") {
+		g.fill(la, depth+1)
+		return true
+	}
+	loc := la.Mutable(la.Descriptor().Fields().ByName("endpoints")).List()
+	le := loc.NewElement()
+	eps := le.Message().Mutable(le.Message().Descriptor().Fields().ByName("lb_endpoints")).List()
+	ep := eps.NewElement()
+	endpoint := ep.Message().Mutable(ep.Message().Descriptor().Fields().ByName("endpoint")).Message()
+	addr := endpoint.Mutable(endpoint.Descriptor().Fields().ByName("address")).Message()
+	sa := addr.Mutable(addr.Descriptor().Fields().ByName("socket_address")).Message()
+	sa.Set(sa.Descriptor().Fields().ByName("address"), protoreflect.ValueOfString(rapid.SampledFrom([]string{"dns.example.com", "localhost", "10.0.0.1", ""}).Draw(g.rt, "dns_host")))
+	sa.Set(sa.Descriptor().Fields().ByName("port_value"), protoreflect.ValueOfUint32(rapid.SampledFrom([]uint32{443, 80, 8080, 0, 65535}).Draw(g.rt, "dns_port")))
+	eps.Append(ep)
+	loc.Append(le)
 	return true
 }
 
@@ -448,6 +530,21 @@ func (g *vfC45G) anyOf(full string, depth int) (protoreflect.Value, bool) {
 func (g *vfC45G) genAny(ctx string, depth int) (protoreflect.Value, bool) {
 	cands := vfC45AnyCtx[ctx]
 	k := rapid.IntRange(0, 19).Draw(g.rt, "any_kind")
+	if g.wild == 0 && k <= 1 && len(cands) > 0 {
+		k = 2
+	}
+	if ctx == "envoy.config.core.v3.TransportSocket.typed_config" && k >= 2 && rapid.IntRange(0, 9).Draw(g.rt, "ts_side") < 8 {
+		// the TLS context that fits the resource: downstream for listeners,
+		// upstream (or the HTTP CONNECT proxy wrapper) for clusters
+		switch {
+		case g.kind == vfC45LDS:
+			cands = []string{vfC45DownTLS}
+		case rapid.IntRange(0, 4).Draw(g.rt, "ts_proxy") == 0:
+			cands = []string{vfC45H11Proxy}
+		default:
+			cands = []string{vfC45UpTLS}
+		}
+	}
 	switch {
 	case k == 0: // garbage bytes under a plausible type
 		amt, _ := protoregistry.GlobalTypes.FindMessageByName("google.protobuf.Any")
@@ -473,7 +570,7 @@ func (g *vfC45G) scalar(fd protoreflect.FieldDescriptor, pool string) protorefle
 		return protoreflect.ValueOfBool(rapid.Bool().Draw(g.rt, name))
 	case protoreflect.EnumKind:
 		vals := fd.Enum().Values()
-		if g.pct(4, name+"_unknown_enum") {
+		if g.wild > 0 && g.pct(4, name+"_unknown_enum") {
 			return protoreflect.ValueOfEnum(protoreflect.EnumNumber(rapid.Int32Range(-1, 50).Draw(g.rt, name)))
 		}
 		return protoreflect.ValueOfEnum(vals.Get(rapid.IntRange(0, vals.Len()-1).Draw(g.rt, name)).Number())
@@ -644,7 +741,7 @@ func (g *vfC45G) fill(m protoreflect.Message, depth int) {
 						rest++
 					}
 				}
-				if pick == nil && rest > 0 && r < acc+6 {
+				if pick == nil && rest > 0 && r < acc+6 && g.wild > 0 {
 					// one of the unlisted members
 					var others []string
 					for _, n := range names {
